@@ -118,7 +118,7 @@ def main():
         'setup_cmd': 'cd /verif && ./setup.sh',
         'hooks': {'guard': 'verif', 'enable': 'go test -tags verif (hooks are add-only calls to verifTrace, compiled to an empty function without the tag); the lock-free modules need no hooks: scheduling points are injected at check time with go test -overlay',
                   'baseline_off_cmd': 'cd /repo && go test -vet=off -count=1 -timeout 25m ./...',
-                  'source_commits': ['b52bc24'], 'add_only': True},
+                  'source_commits': ['b52bc24', '633daf6'], 'add_only': True},
         'engines': [{'name': n, 'path': '/verif/specs/%s.tla' % n, 'serves_properties': ps,
                      'kind_free_text': 'TLA+ module checked by TLC, bound to the code by checks/%s.py + harness/zz_%s_test.go' % (n.lower(), n.lower())}
                     for n, ps in engines.items()],
